@@ -414,7 +414,8 @@ def ctx_event_requires(c, me, etype):
 P_PRE, P_EXITED, P_SENT_EXIT, P_HOP, P_ENTERED, P_TIMED, P_CALC, P_OUT, P_DONE = -1, 1, 2, 3, 4, 5, 7, 8, 9
 
 
-@contract('FSM._ctx_event', qual=Q + '_ctx_event', params={'data': DICT}, modifies=FSM_EFFECTS, self_cls='FSM')
+# ghost:ctx -- _ctx_event sets the context variable fsm_event_data of the context it runs in (a caller that must not see that runs it in a copy)
+@contract('FSM._ctx_event', qual=Q + '_ctx_event', params={'data': DICT}, modifies=FSM_EFFECTS + ('ghost:ctx',), self_cls='FSM')
 def _ctx_event(c):
     me, etype = c.z('self'), c.v('etype')
     data = c.z('data')
@@ -585,6 +586,7 @@ def ctx_copy_run(ex, e, st):
         me = s1.env['self']
         k = CONTRACTS['FSM._ctx_event']
         for s2, r in calls.apply_contract(ex, s1, k, me, [vals[0], vals[1]], {}, [], [], e):
+            s2 = s2.copy(); s2.ghost['ctx'] = s1.ghost.get('ctx')        # the callee ran in a copy: the caller's context variable is as before
             outs.append((s2, r))
     return outs
 
